@@ -249,19 +249,13 @@ void BatchLogRecordProcessor::Export()
 
   do
   {
-    std::vector<std::unique_ptr<Recordable>> records_arr;
-    size_t num_records_to_export;
     std::uint64_t notify_force_flush =
         synchronization_data_->force_flush_pending_sequence.load(std::memory_order_acquire);
-    if (notify_force_flush)
-    {
-      num_records_to_export = buffer_.size();
-    }
-    else
-    {
-      num_records_to_export =
-          buffer_.size() >= max_export_batch_size_ ? max_export_batch_size_ : buffer_.size();
-    }
+    // Everything queued before the flush sequence was read is exported before that sequence is
+    // published, in batches of at most max_export_batch_size_ records.
+    size_t num_records_pending = buffer_.size();
+    size_t num_records_to_export =
+        num_records_pending >= max_export_batch_size_ ? max_export_batch_size_ : num_records_pending;
 
     if (num_records_to_export == 0)
     {
@@ -269,20 +263,32 @@ void BatchLogRecordProcessor::Export()
       break;
     }
 
-    // Reserve space for the number of records
-    records_arr.reserve(num_records_to_export);
-    buffer_.Consume(num_records_to_export,
-                    [&](CircularBufferRange<AtomicUniquePtr<Recordable>> range) noexcept {
-                      range.ForEach([&](AtomicUniquePtr<Recordable> &ptr) {
-                        std::unique_ptr<Recordable> swap_ptr = std::unique_ptr<Recordable>(nullptr);
-                        ptr.Swap(swap_ptr);
-                        records_arr.push_back(std::unique_ptr<Recordable>(swap_ptr.release()));
-                        return true;
-                      });
-                    });
+    do
+    {
+      std::vector<std::unique_ptr<Recordable>> records_arr;
+      // Reserve space for the number of records
+      records_arr.reserve(num_records_to_export);
 
-    exporter_->Export(
-        nostd::span<std::unique_ptr<Recordable>>(records_arr.data(), records_arr.size()));
+      buffer_.Consume(num_records_to_export,
+                      [&](CircularBufferRange<AtomicUniquePtr<Recordable>> range) noexcept {
+                        range.ForEach([&](AtomicUniquePtr<Recordable> &ptr) {
+                          std::unique_ptr<Recordable> swap_ptr =
+                              std::unique_ptr<Recordable>(nullptr);
+                          ptr.Swap(swap_ptr);
+                          records_arr.push_back(std::unique_ptr<Recordable>(swap_ptr.release()));
+                          return true;
+                        });
+                      });
+
+      exporter_->Export(
+          nostd::span<std::unique_ptr<Recordable>>(records_arr.data(), records_arr.size()));
+
+      num_records_pending -= num_records_to_export;
+      num_records_to_export = num_records_pending >= max_export_batch_size_
+                                  ? max_export_batch_size_
+                                  : num_records_pending;
+    } while (num_records_to_export > 0);
+
     NotifyCompletion(notify_force_flush, exporter_, synchronization_data_);
   } while (true);
 
